@@ -25,7 +25,8 @@ TARGETS = ["Tx3Proofs.C05", "Tx3Proofs.C05Fee"]
 THEOREMS = ["Tx3.resolveLoop_fixed_point", "Tx3.C05_fixed_point", "Tx3.resolveLoop_stable", "Tx3.C05_stable",
             "Tx3.C05_fee_written", "Tx3.C05_fee_chain"]
 RULE = (
-    "cases = (template, pparams, store, rounds): 5 template shapes using `fees` in outputs and/or min_amount, with and "
+    "cases = the apply-fees probe (the real apply_fees on every template shape and on hand-built input / collateral "
+    "queries that hold the fee, four fees each); (template, pparams, store, rounds): 5 template shapes using `fees` in outputs and/or min_amount, with and "
     "without min_utxo, 0-2 extra outputs, lowered from source; min_fee_coefficient in {0,1,44,1000}, constant in "
     "{0,155381,10^6}, extra_fees in {None,0,1,5000,2*10^5,1.2*10^6,4999999,5*10^6,5000001,7.5*10^6,2.5*10^7,10^9,2^32,2^40}; the single input amount is aimed at CBOR width boundaries of the "
     "change output and of the fee (24, 2^8, 2^16, 2^32) with jitter, where fee oscillation lives; max rounds in "
